@@ -3,6 +3,7 @@
   Property theorems only (helper lemmas live in PsProofs).
 -/
 import PsProofs.CountSieve
+import PsModel.Generated.Locks
 
 namespace Ps.Props
 open Ps Ps.Spec
@@ -53,5 +54,15 @@ example : ∃ isP, IsPrimeOK isP := ⟨fun n => decide n.Prime, fun n => by simp
 example : isFlag 63 1 = true ∧ isFlag 1 1 = true := by decide
 /-- non-vacuity: the model counts π(100) = 25 -/
 example : (primeSieveCounts (fun n => decide n.Prime) 0 100 1).getD 0 0 = 25 := by decide
+
+/-- **C04 (model sources)** regenerated on every run: digests of the (comment-, hook- and whitespace-normalised) bodies of the
+    functions that the hand-written model behind the theorems of this file mirrors.  An edit to one of
+    them — harmless or not — breaks this obligation; the check then searches for a failing input
+    with the correspondence streams (DESIGN.md section 2, step 5). -/
+theorem C04_model_sources :
+    Gen.modelSources.filter (fun e => e.1 ∈ ["CountPrintPrimes.countPrimes", "PrimeSieve.sieve", "PrimeSieve.processSmallPrimes"]) =
+     [("CountPrintPrimes.countPrimes", "54bb15a4166e97fe885b"),
+      ("PrimeSieve.sieve", "aca790c07461bbada381"),
+      ("PrimeSieve.processSmallPrimes", "aea93bdf6096ecdf2777")] := by decide
 
 end Ps.Props
